@@ -1,0 +1,6 @@
+//go:build !verif
+
+package types
+
+// VerifYieldPoint is a no-op without the verif build tag.
+func VerifYieldPoint(string) {}
